@@ -1,3 +1,157 @@
-use crate::util::Out;
-pub fn generate(_seed: u64, _tier: &str) -> Vec<String> { vec![] }
-pub fn run(_ops: &[String], _out: &mut Out) -> Result<(), String> { Err("not implemented".into()) }
+//! C31 — every node applies committed actions once each and in log order.
+//!
+//! Op: `c31 run <d1,d2,…,dn>` — the real `agdb_server` binary (hook H3, `--verif-exec`) builds a
+//! `ClusterStorage` on a scratch data dir, appends n actions, commits them with ONE `commit(n)`; the
+//! execution of entry i is delayed by d_i ms at the hook's delay point. Output: `order=<executed log
+//! indexes in execution order>`.
+
+use crate::srv::{build_server, verif_root};
+use crate::util::{Out, Rng};
+use std::io::Read;
+use std::process::{Command, Stdio};
+use std::time::{Duration, Instant};
+
+pub fn generate(seed: u64, tier: &str) -> Vec<String> {
+    let mut r = Rng::new(seed);
+    let runs = if tier == "thorough" { 600 } else { 40 };
+    let mut ops = Vec::new();
+    for case in 1..=runs {
+        ops.push(format!("case {case}"));
+        let n = 2 + r.below(7);
+        let delays: Vec<u64> = match r.below(4) {
+            // plain tokio scheduling, no injected delay at all
+            0 => vec![0; n],
+            // adversarial: later entries are faster
+            1 => (0..n).map(|i| ((n - 1 - i) * 25) as u64).collect(),
+            // one slow early entry
+            2 => (0..n).map(|i| if i == 0 { 60 } else { 0 }).collect(),
+            _ => (0..n).map(|_| [0u64, 20, 40, 60][r.below(4)]).collect(),
+        };
+        let ds: Vec<String> = delays.iter().map(|d| d.to_string()).collect();
+        ops.push(format!("c31 run {}", ds.join(",")));
+    }
+    ops
+}
+
+fn run_once(bin: &std::path::Path, dir: &std::path::Path, n: usize, delays: &str) -> Result<String, String> {
+    let _ = std::fs::remove_dir_all(dir);
+    std::fs::create_dir_all(dir).map_err(|e| e.to_string())?;
+    let mut child = Command::new(bin)
+        .args(["--verif-exec", &n.to_string(), "data"])
+        .current_dir(dir)
+        .env("AGDB_VERIF_DELAYS", delays)
+        .stdin(Stdio::null())
+        .stdout(Stdio::piped())
+        .stderr(Stdio::null())
+        .spawn()
+        .map_err(|e| e.to_string())?;
+    let start = Instant::now();
+    loop {
+        match child.try_wait() {
+            Ok(Some(_)) => break,
+            Ok(None) => {
+                if start.elapsed() > Duration::from_secs(45) {
+                    let _ = child.kill();
+                    let _ = child.wait();
+                    return Err("timeout".into());
+                }
+                std::thread::sleep(Duration::from_millis(10));
+            }
+            Err(e) => return Err(e.to_string()),
+        }
+    }
+    let mut s = String::new();
+    if let Some(mut o) = child.stdout.take() {
+        let _ = o.read_to_string(&mut s);
+    }
+    let _ = std::fs::remove_dir_all(dir);
+    Ok(s)
+}
+
+pub fn run(ops: &[String], out: &mut Out) -> Result<(), String> {
+    let bin = build_server()?;
+    let root = verif_root()
+        .join(".work")
+        .join(format!("C31-{}", std::process::id()));
+    let mut hook_missing = false;
+    for l in ops {
+        if let Some(n) = l.strip_prefix("case ") {
+            out.case = n.trim().parse().unwrap_or(0);
+            out.line(l.clone(), l.clone());
+            continue;
+        }
+        let t: Vec<&str> = l.split(' ').collect();
+        if t.len() != 3 || t[0] != "c31" || t[1] != "run" {
+            out.line(l.clone(), "bad-op".into());
+            continue;
+        }
+        let delays: Vec<u64> = t[2].split(',').filter_map(|x| x.parse().ok()).collect();
+        let n = delays.len();
+        let sorted = delays.windows(2).all(|w| w[0] <= w[1]);
+        out.note_case(l, !sorted || delays.iter().all(|d| *d == 0));
+        out.count(if delays.iter().all(|d| *d == 0) {
+            "schedule:no-delay"
+        } else if sorted {
+            "schedule:delays-in-log-order"
+        } else {
+            "schedule:delays-against-log-order"
+        });
+        if hook_missing {
+            out.line(l.clone(), "nohook".into());
+            continue;
+        }
+        let res = run_once(&bin, &root.join("run"), n, t[2]);
+        let text = match res {
+            Ok(s) => s,
+            Err(e) => {
+                if e == "timeout" && out.evaluations <= 1 {
+                    // the binary has no `--verif-exec` entry (hook H3 not applied): it started a server
+                    hook_missing = true;
+                    out.line(l.clone(), "nohook".into());
+                    continue;
+                }
+                out.line(l.clone(), format!("err:{e}"));
+                continue;
+            }
+        };
+        let order_line = text
+            .lines()
+            .find(|x| x.starts_with("order="))
+            .unwrap_or("order=?")
+            .to_string();
+        let unexecuted = text
+            .lines()
+            .find(|x| x.starts_with("unexecuted="))
+            .unwrap_or("unexecuted=?")
+            .to_string();
+        let order: Vec<u64> = order_line["order=".len()..]
+            .split(',')
+            .filter_map(|x| x.parse().ok())
+            .collect();
+        let mut once = order.clone();
+        once.sort();
+        let expect: Vec<u64> = (1..=n as u64).collect();
+        if once != expect || unexecuted != "unexecuted=0" {
+            out.violation(
+                "C31/not-exactly-once/ClusterStorage::execute_log",
+                "every committed entry is executed exactly once",
+                &format!("{expect:?} unexecuted=0"),
+                &format!("{order_line} {unexecuted}"),
+            );
+            out.count("oracle:not-exactly-once");
+        } else if order != expect {
+            out.violation(
+                "C31/exec-order-inversion/ClusterStorage::execute_log",
+                "committed entries are executed in increasing log index order",
+                &format!("{expect:?}"),
+                &order_line,
+            );
+            out.count("oracle:order-inversion");
+        } else {
+            out.count("oracle:in-order");
+        }
+        out.line(l.clone(), order_line);
+    }
+    let _ = std::fs::remove_dir_all(&root);
+    Ok(())
+}
